@@ -239,6 +239,16 @@ def generate(rng, tier):
         # with the opposite channel convention (a decoy): which wrapper an explainer holds must not depend on it
         c["decoy"] = len(c["shape"]) == 3 and rng.random() < 0.5
         cases.append(c)
+    # always present: cube-shaped inputs through channel-first modules with a gradient method
+    found = 0
+    for _ in range(400):
+        if found >= 4:
+            break
+        c = gen_torch(rng, tier)
+        if len(c["shape"]) == 3 and len(set(c["shape"])) == 1 and c["shape"][0] >= 2 and c["kind"] in ("img_first", "conv", "convrelu"):
+            c["decoy"] = False
+            cases.append(c)
+            found += 1
     # detection is about Conv2d ONLY: modules whose only convolutions are of another kind, detection left to the wrapper
     for tree in (["Conv1d"], ["Conv3d", "ReLU"], [["Conv1d", "ReLU"], "Flatten", "Linear"], ["ConvTranspose2d"],
                  [["Conv1d"], ["Conv2d"]]):
